@@ -19,7 +19,8 @@ def main():
     print(json.dumps({"property": prop, "recorded_clause": payload["clause"],
                       "fails_now": fails[:10], "positions": res["positions"],
                       "ret": [r.get("ret") for r in case["runs"]],
-                      "task_state_log": case["runs"][-1]["final"]["lg"]["ts"]}, indent=1))
+                      "observed": [(r["final"]["lg"]["ts"] if "final" in r else {k: r.get(k) for k in ("fn", "mode", "inp", "out")})
+                                   for r in case["runs"]]}, indent=1))
     if any(f["clause"] == payload["clause"] for f in fails):
         print("VIOLATION property=%s replay=%s" % (prop, sys.argv[1]))
         return 1
